@@ -11,7 +11,7 @@ for n in $names; do
   out=$(cd /verif && GRID_REPO=$WT ./check $PROP --tier quick --jobs $JOBS 2>&1); rc=$?
   clauses=$(echo "$out" | grep -A1 '^VIOLATION' | grep -o 'clause=[^ ]*' | sort | uniq -c | awk '{printf "%s(x%s) ", $2, $1}')
   suite="(skipped: SUITE=0)"
-  [ "${SUITE:-1}" = 1 ] && suite=$(cd $WT && PYTHONDONTWRITEBYTECODE=1 PYTHONPATH=$WT/src timeout 3000 /venv/bin/python -m pytest -q -x -p no:cacheprovider $TESTS -k "$KEXPR" -n ${SUITE_JOBS:-4} 2>&1 | tail -1)
+  [ "${SUITE:-1}" = 1 ] && suite=$(cd $WT && OMP_NUM_THREADS=1 OPENBLAS_NUM_THREADS=1 MKL_NUM_THREADS=1 PYTHONDONTWRITEBYTECODE=1 PYTHONPATH=$WT/src timeout 3000 /venv/bin/python -m pytest -q -x -p no:cacheprovider $TESTS -k "$KEXPR" -n ${SUITE_JOBS:-4} 2>&1 | tail -1)
   echo "$n | check rc=$rc | $clauses| suite: $suite"
 done
 git -C $WT checkout -- . ; git -C /repo worktree remove --force $WT
